@@ -1490,24 +1490,45 @@ where
             None
         };
 
+        #[cfg(feature = "verif-trace")]
+        if outer_assignment_left.is_some() {
+            verif::emit(
+                "assign_enter",
+                &[(
+                    "sym",
+                    verif::V::S(
+                        self.assignment_left
+                            .as_ref()
+                            .map(|left| &*left.sym)
+                            .unwrap_or(""),
+                    ),
+                )],
+            );
+        }
+
         expr.visit_mut_children_with(self);
 
         if let Some(outer_assignment_left) = outer_assignment_left {
             self.assignment_left = outer_assignment_left;
+            #[cfg(feature = "verif-trace")]
+            verif::emit(
+                "assign_exit",
+                &[(
+                    "restored",
+                    verif::V::S(
+                        self.assignment_left
+                            .as_ref()
+                            .map(|left| &*left.sym)
+                            .unwrap_or(""),
+                    ),
+                )],
+            );
         }
 
         match expr {
             Expr::JSXElement(jsx_element) => *expr = self.transform_jsx_element(jsx_element),
             Expr::JSXFragment(jsx_fragment) => *expr = self.transform_jsx_fragment(jsx_fragment),
             _ => {}
-        }
-        #[cfg(feature = "verif-trace")]
-        if let Expr::Assign(AssignExpr {
-            left: AssignTarget::Simple(SimpleAssignTarget::Ident(binding_ident)),
-            ..
-        }) = expr
-        {
-            verif::emit("assign_seen", &[("sym", verif::V::S(&binding_ident.id.sym))]);
         }
     }
 
